@@ -221,7 +221,13 @@ namespace vu {
       std::mt19937_64 g;
       explicit Rng(unsigned long s) : g{s} { }
       int below(int n) { return n <= 0 ? 0 : static_cast<int>(g() % static_cast<unsigned long>(n)); }
-      int pick(const std::vector<int>& v) { return v.at(below(static_cast<int>(v.size()))); }
+      int focus = 0;           // > 0: three picks out of four come from the first `focus` entries, so that keys share coordinates
+      int pick(const std::vector<int>& v)
+      {
+         if (focus > 0 and static_cast<int>(v.size()) > focus and below(4) != 0) return v.at(below(focus));
+         return v.at(below(static_cast<int>(v.size())));
+      }
+      int any(const std::vector<int>& v) { return v.at(below(static_cast<int>(v.size()))); }
       bool coin(int pct) { return below(100) < pct; }
    };
 
@@ -238,6 +244,8 @@ namespace vu {
 
    const std::vector<std::string> words { "", "a", "b", "foo", "bar", "int", "C", "C++", "Java", "cdecl", "this",
       "default", "const", "unsigned long long", "static", "x1", "operator", "+", "new[]", "zz" };
+
+   inline std::vector<std::string> vocabulary = words;       // the spellings random requests draw from (--wordset)
 
    // Build a random request that is well-sorted for the current pools; returns false if impossible now.
    bool random_request(Interp& in, Rng& rng, const std::string& op, Value& req)
@@ -259,7 +267,7 @@ namespace vu {
       }
       else if (op == "get_function_x") {
          if (not need(in.products)) return false;
-         a.push(rng.pick(in.products)); a.push(rng.pick(in.types)); a.push(rng.pick(in.transfers));
+         a.push(rng.pick(in.products)); a.push(rng.pick(in.types)); a.push(rng.any(in.transfers));
       }
       else if (op == "get_function_e") {
          if (not need(in.products)) return false;
@@ -267,7 +275,7 @@ namespace vu {
       }
       else if (op == "get_function_ex") {
          if (not need(in.products)) return false;
-         a.push(rng.pick(in.products)); a.push(rng.pick(in.types)); a.push(anyexpr()); a.push(rng.pick(in.transfers));
+         a.push(rng.pick(in.products)); a.push(rng.pick(in.types)); a.push(anyexpr()); a.push(rng.any(in.transfers));
       }
       else if (op == "get_product" or op == "get_sum" or op == "get_product_ref" or op == "get_sum_ref") {
          int n = rng.below(4);
@@ -283,16 +291,16 @@ namespace vu {
          a.push(rng.pick(in.products)); a.push(rng.pick(in.sums));
       }
       else if (op == "get_as_type") a.push(anyexpr());
-      else if (op == "get_as_type_x") { a.push(anyexpr()); a.push(rng.pick(in.transfers)); }
+      else if (op == "get_as_type_x") { a.push(anyexpr()); a.push(rng.any(in.transfers)); }
       else if (op == "get_as_type_id" or op == "get_suffix" or op == "get_label") a.push(rng.pick(in.idents));
       else if (op == "get_decltype") a.push(rng.coin(30) ? 29 : anyexpr());
       else if (op == "get_auto") { }
-      else if (op == "get_transfer_from_linkage") a.push(rng.pick(in.linkages));
-      else if (op == "get_transfer_from_convention") a.push(rng.pick(in.callconvs));
-      else if (op == "get_transfer") { a.push(rng.pick(in.linkages)); a.push(rng.pick(in.callconvs)); }
+      else if (op == "get_transfer_from_linkage") a.push(rng.any(in.linkages));
+      else if (op == "get_transfer_from_convention") a.push(rng.any(in.callconvs));
+      else if (op == "get_transfer") { a.push(rng.any(in.linkages)); a.push(rng.any(in.callconvs)); }
       else if (op == "get_identifier" or op == "get_operator" or op == "get_logogram" or op == "get_linkage"
                or op == "get_calling_convention" or op == "get_identifier_s" or op == "get_operator_s" or op == "get_linkage_s")
-         wd = words[rng.below(static_cast<int>(words.size()))];
+         wd = vocabulary[static_cast<std::size_t>(rng.below(static_cast<int>(vocabulary.size())))];
       else if (op == "get_guide_name") { if (not need(in.templates)) return false; a.push(rng.pick(in.templates)); }
       else if (op == "get_template_id") {
          if (not need(in.exprlists)) return false;
@@ -300,11 +308,11 @@ namespace vu {
       }
       else if (op == "get_symbol") { a.push(rng.pick(in.idents)); a.push(rng.pick(in.types)); }
       else if (op == "get_literal" or op == "make_literal" or op == "get_literal_s" or op == "make_literal_s") {
-         a.push(rng.pick(in.types)); wd = words[rng.below(static_cast<int>(words.size()))];
+         a.push(rng.pick(in.types)); wd = vocabulary[static_cast<std::size_t>(rng.below(static_cast<int>(vocabulary.size())))];
       }
-      else if (op == "eq_linkage") { a.push(rng.pick(in.linkages)); a.push(rng.pick(in.linkages)); }
-      else if (op == "eq_callconv") { a.push(rng.pick(in.callconvs)); a.push(rng.pick(in.callconvs)); }
-      else if (op == "eq_transfer") { a.push(rng.pick(in.transfers)); a.push(rng.pick(in.transfers)); }
+      else if (op == "eq_linkage") { a.push(rng.any(in.linkages)); a.push(rng.any(in.linkages)); }
+      else if (op == "eq_callconv") { a.push(rng.any(in.callconvs)); a.push(rng.any(in.callconvs)); }
+      else if (op == "eq_transfer") { a.push(rng.any(in.transfers)); a.push(rng.any(in.transfers)); }
       else if (op == "eq_logogram") {
          if (not need(in.logograms)) return false;
          a.push(rng.pick(in.logograms)); a.push(rng.pick(in.logograms));
